@@ -11,6 +11,15 @@ parser or formula classes (only BindExpression.to_tree_prefix is used for match-
 trees, which are inputs of the specification, DESIGN.md C03).  The same instance is additionally
 decided by harness/spec_sem.py (Z3 on ground atoms) — a cross-check of the two oracles.
 
+Second stream = TRACE CONFORMANCE (trace_stage): a sample of the instances is run again with
+ISLaSolver(debug=True); every recorded edge of solver.state_tree (state polled by solve() ->
+successor enqueued by state_is_valid_or_enqueue) and every edge (state being processed -> returned
+tree) is classified INSIDE COQ by TraceConf.edge_kind (equal tree / completion / completion up to
+node ids / insertion / non-conforming); Props/C01.v C01_trace_edge_sound and the C01_trace_...
+theorems turn a conforming edge into the tree part of a rule of the abstract system
+(Solver/Rules*.v).  A non-conforming edge is a VIOLATION (replayable) unless it falls into the open
+finding class K_const_type (root label changes).
+
 Crashes/timeouts of the solver are C02 matters: caught and counted, not reported here."""
 import json, multiprocessing as mp, os, random, signal, sys, time, hashlib
 import lib
@@ -427,6 +436,7 @@ def solve_instance(job):
     st = job["settings"]
     ast = job["ast"]
     out = {"solutions": [], "end": None, "seconds": 0.0}
+    solver, sol_parents = None, []
     t0 = os.times().user
     signal.signal(signal.SIGVTALRM, _on_budget)
     signal.setitimer(signal.ITIMER_VIRTUAL, job["budget"])
@@ -440,6 +450,8 @@ def solve_instance(job):
                 kw["activate_unsat_support"] = True
             if st["start_symbol"] is not None:
                 kw["start_symbol"] = st["start_symbol"]
+            if job.get("trace"):
+                kw["debug"] = True      # fills solver.state_tree (trace-conformance stream)
             solver = ISLaSolver(g, formula, **kw)
         except BudgetExceeded:
             raise
@@ -449,6 +461,10 @@ def solve_instance(job):
         while len(out["solutions"]) < job["max_solutions"]:
             try:
                 t = solver.solve()
+                if job.get("trace"):
+                    # solve() returns pending solutions BEFORE it polls the next state, so
+                    # current_state is the state whose processing produced this tree
+                    sol_parents.append((solver.current_state, t))
             except StopIteration:
                 out["end"] = "stop"
                 break
@@ -468,7 +484,111 @@ def solve_instance(job):
     finally:
         signal.setitimer(signal.ITIMER_VIRTUAL, 0)
         out["seconds"] = os.times().user - t0
+    if job.get("trace") and solver is not None:
+        try:
+            out["trace"] = extract_trace(solver, sol_parents, job.get("max_edges", 60))
+        except BaseException as e:  # noqa
+            out["trace"] = {"error": type(e).__name__ + ":" + str(e)[:200], "edges": [], "edges_total": 0,
+                            "solutions": 0, "solutions_chain_complete": 0}
     return out
+
+
+# --------------------------------------------------------------------------
+# trace conformance: edges of the debug state tree (ISLaSolver(debug=True).state_tree)
+# --------------------------------------------------------------------------
+def extract_trace(solver, sol_parents, max_edges):
+    """edges (parent state -> enqueued successor) recorded by state_is_valid_or_enqueue, plus one
+    edge (state being processed -> returned tree) per solution.  At most max_edges edges: first the
+    chains initial state -> ... -> solution, then the remaining edges in recording order."""
+    st = solver.state_tree
+    root = solver.state_tree_root
+    parent, order = {}, []
+    for p, chs in st.items():
+        for c in chs:
+            order.append((p, c))
+            if c not in parent and c is not p:
+                parent[c] = p
+    picked, seen = [], set()
+
+    def add(p_tree, c_tree, pc, cc, kind):
+        key = (id(p_tree), id(c_tree), kind)
+        if key in seen:
+            return True
+        if len(picked) >= max_edges:
+            return False
+        seen.add(key)
+        picked.append({"p": tree_json(p_tree), "c": tree_json(c_tree), "pc": str(pc)[:300], "cc": str(cc)[:300],
+                       "edge": kind})
+        return True
+
+    n_complete = 0
+    for (ps, sol) in sol_parents:
+        chain, x, visited = [], ps, set()
+        while x is not None and x in parent and id(x) not in visited:
+            visited.add(id(x))
+            chain.append((parent[x], x))
+            x = parent[x]
+        reaches_root = x is not None and (x is root or x == root)
+        ok = True
+        for (p, c) in reversed(chain):
+            ok = add(p.tree, c.tree, p.constraint, c.constraint, "state") and ok
+        if ps is not None:
+            ok = add(ps.tree, sol, ps.constraint, "true (returned solution)", "solution") and ok
+        else:
+            ok = False
+        n_complete += bool(ok and reaches_root)
+    for (p, c) in order:
+        if len(picked) >= max_edges:
+            break
+        add(p.tree, c.tree, p.constraint, c.constraint, "state")
+    return {"edges": picked, "edges_total": len(order) + len(sol_parents), "solutions": len(sol_parents),
+            "solutions_chain_complete": n_complete}
+
+
+def _js_compl(a, b, ids=True):
+    """Python mirror of TraceConf.complb (ids=True) / complb_ni (ids=False) on tree_json values"""
+    if a[2] is None:
+        return b[0] == a[0]
+    if b[2] is None or b[0] != a[0] or (ids and b[1] != a[1]) or len(a[2]) != len(b[2]):
+        return False
+    return all(_js_compl(x, y, ids) for x, y in zip(a[2], b[2]))
+
+
+def _js_nodes(a, acc):
+    acc.add((a[1], a[0]))
+    for c in a[2] or ():
+        _js_nodes(c, acc)
+    return acc
+
+
+def _js_hint(a, b):
+    """the path down to which a and b agree except for one child (labels of that child equal)"""
+    p = []
+    while a[2] is not None and b[2] is not None and a[0] == b[0] and a[1] == b[1] and len(a[2]) == len(b[2]):
+        diff = [i for i, (x, y) in enumerate(zip(a[2], b[2])) if x != y]
+        if len(diff) != 1 or a[2][diff[0]][0] != b[2][diff[0]][0]:
+            break
+        p.append(diff[0])
+        a, b = a[2][diff[0]], b[2][diff[0]]
+    return p
+
+
+EDGE_KINDS = {0: "nonconforming", 1: "equal tree", 2: "completion (ids kept)", 3: "completion up to node ids",
+              4: "insertion"}
+
+
+def edge_kind_py(a, b):
+    """predicted value of TraceConf.edge_kind (grammar validity of b is judged in Coq only) and the
+    hint path for kind 4"""
+    if a[0] != b[0]:
+        return 0, []
+    if _js_compl(a, b):
+        return (1 if a == b else 2), []
+    if _js_compl(a, b, ids=False):
+        return 3, []
+    if _js_nodes(a, set()) <= _js_nodes(b, set()):
+        return 4, _js_hint(a, b)
+    return 0, []
 
 
 def _child(job, conn):
@@ -851,6 +971,167 @@ def check_batch(tag, jobs, results, ok_def=None, only=None):
     return [smeta[a][b] for a, b in bad], sum(len(m) for m in smeta), dt
 
 
+TRACE_IMPORTS = "TraceConf"
+TRACE_OK = ("fun c : grammar * tree * path * tree * N => let '(g, t, p, t1, k) := c in "
+            "N.eqb (edge_kind g t p t1) k")
+
+
+def trace_defs(k, job, trees):
+    from isla.helpers import canonical
+    geff = effective_grammar(job["gname"], job["settings"]["start_symbol"])
+    out = f"Definition TG{k} : grammar := {g_grammar(canonical(geff))}.\n"
+    for n, tj in enumerate(trees):
+        out += f"Definition TT{k}_{n} : tree := {g_tree(tree_from_json(tj))}.\n"
+    return out
+
+
+def trace_stage(run, jobs, results, nproc, known_by_class):
+    """TRACE CONFORMANCE: a sample of the instances is run again with ISLaSolver(debug=True); every
+    recorded edge (parent state -> successor state, state -> returned tree) is classified INSIDE COQ by
+    TraceConf.edge_kind, whose soundness theorem (Props/C01.v C01_trace_edge_sound) turns a non-zero
+    kind into the tree part of a rule of the abstract system (completion: refinement step given
+    the constraint part; insertion: the tree guards of r_insert + C13 inserted_lossy)."""
+    thorough = run.tier == "thorough"
+    n_trace = int(os.environ.get("VERIF_C01_TRACE_N", 150 if thorough else 30))
+    max_edges = int(os.environ.get("VERIF_C01_TRACE_EDGES", 60))
+    rng = random.Random(run.seed + 1)
+    # activate_unsat_support is excluded: the nested solve() of the unsat check overwrites
+    # current_state and does not restore it, so debug mode files the outer successors under a state
+    # of the nested sub-problem (an artefact of the recording, not of the solver)
+    elig = [ji for ji, (j, r) in enumerate(zip(jobs, results))
+            if not j["settings"].get("unsat") and not r["end"].startswith(("init-crash", "worker", "hard"))]
+    with_sol = [ji for ji in elig if results[ji]["solutions"]]
+    without = [ji for ji in elig if not results[ji]["solutions"]]
+    rng.shuffle(with_sol)
+    rng.shuffle(without)
+    n_with = min(len(with_sol), (2 * n_trace) // 3)
+    chosen = sorted(with_sol[:n_with] + without[:n_trace - n_with])
+    tjobs = [dict(jobs[ji], trace=True, budget=1.0, max_solutions=8, max_edges=max_edges) for ji in chosen]
+    t0 = time.time()
+    tres = run_jobs(tjobs, nproc)
+    info = {"instances": len(tjobs), "solver_wall_seconds": round(time.time() - t0, 1)}
+    shards, smeta = [], []
+    cur_defs, cur_cases, cur_meta, cur_size, k = "", [], [], 0, 0
+    pred = {}
+    hist = {v: 0 for v in EDGE_KINDS.values()}
+    hint_depth, n_sol_edges, n_stutter, total_rec, n_sols, n_chain = {}, 0, 0, 0, 0, 0
+    with_edges = 0
+    for ti, (job, res) in enumerate(zip(tjobs, tres)):
+        tr = res.get("trace") or {"edges": [], "edges_total": 0, "solutions": 0, "solutions_chain_complete": 0}
+        if tr.get("error"):
+            info.setdefault("extraction_errors", []).append(tr["error"])
+        total_rec += tr["edges_total"]
+        n_sols += tr["solutions"]
+        n_chain += tr["solutions_chain_complete"]
+        if not tr["edges"]:
+            continue
+        with_edges += 1
+        table, index, cases = [], {}, []
+        for ei, e in enumerate(tr["edges"]):
+            kd, hint = edge_kind_py(e["p"], e["c"])
+            pred[(ti, ei)] = (kd, hint)
+            ids = []
+            for tj in (e["p"], e["c"]):
+                key = json.dumps(tj)
+                if key not in index:
+                    index[key] = len(table)
+                    table.append(tj)
+                ids.append(index[key])
+            cases.append(f"(TG{k}, TT{k}_{ids[0]}, {g_path(hint)}, TT{k}_{ids[1]}, {kd}%N)")
+            cur_meta.append((ti, ei))
+            hist[EDGE_KINDS[kd]] += 1
+            n_sol_edges += e["edge"] == "solution"
+            if kd == 1 and e["edge"] == "state" and e["pc"] == e["cc"]:
+                n_stutter += 1
+            if kd == 4:
+                hint_depth[str(len(hint))] = hint_depth.get(str(len(hint)), 0) + 1
+            run.count(("trace", ti, ei, json.dumps(e["p"]) + json.dumps(e["c"])), kd in (2, 3, 4))
+        defs = trace_defs(k, job, table)
+        cur_defs += defs
+        cur_cases += cases
+        cur_size += len(defs)
+        k += 1
+        if cur_size > 200_000 or k % 6 == 0:
+            shards.append((cur_defs, cur_cases))
+            smeta.append(cur_meta)
+            cur_defs, cur_cases, cur_meta, cur_size = "", [], [], 0
+    if cur_cases:
+        shards.append((cur_defs, cur_cases))
+        smeta.append(cur_meta)
+    info.update({"instances_with_edges": with_edges, "edges_recorded_total": total_rec,
+                 "edges_checked": sum(len(m) for m in smeta), "kinds": hist,
+                 "edges_state_to_returned_tree": n_sol_edges, "returned_trees": n_sols,
+                 "returned_trees_with_fully_checked_chain_from_initial_state": n_chain,
+                 "insertion_hint_depth": hint_depth,
+                 "equal_tree_edges_with_identical_constraint_text": n_stutter,
+                 "max_edges_per_instance": max_edges,
+                 "note": "edge = (state polled by solve(), successor enqueued by state_is_valid_or_enqueue) as recorded in "
+                         "ISLaSolver(debug=True).state_tree, plus (state being processed, tree returned by solve()); "
+                         "instances with activate_unsat_support are excluded (debug mode does not restore current_state "
+                         "after the nested solve()). Every edge is evaluated in Coq by TraceConf.edge_kind (the Python "
+                         "prediction only organises the evidence: a disagreement is reported). Kinds: equal tree / "
+                         "completion with ids kept (Rules.compl) / completion up to node ids (SMT answer substituted for "
+                         "a partially expanded tree: inner nodes are re-parsed with fresh ids) / insertion (every (id, label) "
+                         "of the old tree occurs in the new one and the new tree is the old one with one subtree replaced, "
+                         "root label kept). The constraint part of an edge is not checked."})
+    run.cov["trace_conformance"] = info
+    if not shards:
+        return
+    try:
+        bad, dt = lib.coq_run_shards("c01t", TRACE_IMPORTS, TRACE_OK, shards)
+    except RuntimeError as e:
+        run.violation({"kind": "correspondence-not-evaluable", "obligation": "Solver/TraceConf.v edge_kind cases",
+                       "error": str(e)[-2500:]}, found_input=False)
+        return
+    info["coq_seconds"] = round(dt, 1)
+    disagree = {smeta[a][b] for a, b in bad}
+    suspects = sorted(disagree | {x for x, (kd, _) in pred.items() if kd == 0})
+    n_known, n_bad, reported = 0, 0, False
+    for (ti, ei) in suspects:
+        job, e = tjobs[ti], tres[ti]["trace"]["edges"][ei]
+        kd, hint = pred[(ti, ei)]
+        actual = kd
+        if (ti, ei) in disagree:
+            tabs = [e["p"], e["c"]]
+            txt = lib.coq_eval("c01te", TRACE_IMPORTS, f"edge_kind TG0 TT0_0 {g_path(hint)} TT0_1",
+                               extra_defs=trace_defs(0, job, tabs))
+            import re
+            m = re.search(r"=\s*(\d+)%N", txt)
+            actual = int(m.group(1)) if m else None
+        if actual not in (0, None):
+            if not reported:
+                reported = True
+                run.violation({"kind": "harness prediction of the edge kind disagrees with Coq (edge conforms)",
+                               "predicted": kd, "coq": actual, "edge": e, "instance": job_public(job),
+                               "obligation": "correspondence harness/c01.py edge_kind_py <-> TraceConf.edge_kind"},
+                              found_input=False)
+            continue
+        st = job["settings"]
+        c = e["c"]
+        if "K_const_type" in known_by_class and st["start_symbol"] is not None and job["how"] == "concrete" \
+                and c[0] == "<start>" and e["p"][0] == st["start_symbol"]:
+            # the root label changes: the constant of a textual formula is typed <start> (open finding)
+            n_known += 1
+            run.known(known_by_class["K_const_type"]["what"])
+            continue
+        n_bad += 1
+        if not reported:
+            reported = True
+            run.violation({"kind": "solver step does not conform to the abstract rule system: the successor's tree is "
+                                   "neither a grammar-valid completion of the state tree nor an insertion result "
+                                   "(or its root label changed)",
+                           "witness": dict(job_public(job), trace_edge=e, edge_index=ei, coq_edge_kind=actual,
+                                           budget_cpu_s=1.0, max_solutions=8),
+                           "parent_tree": str(tree_from_json(e["p"])), "child_tree": str(tree_from_json(e["c"])),
+                           "parent_constraint": e["pc"], "child_constraint": e["cc"],
+                           "theorem": "Props/C01.v C01_trace_edge_sound (edge_okb = true -> edge_spec) — check failed",
+                           "how_to_replay": "./check C01 --replay <this file>"})
+    info["edges_in_known_class_K_const_type"] = n_known
+    info["nonconforming_edges"] = n_bad
+    print(f"[C01] trace conformance: instances={len(tjobs)} edges={info['edges_checked']} kinds={hist} "
+          f"coq={info['coq_seconds']}s", flush=True)
+
+
 def minimise(job, nproc):
     """drop conjuncts of a top-level conjunction / of the quantifier body while the solver still
     returns a tree violating the (reduced) constraint, judged by spec_sem; returns the smallest job"""
@@ -938,7 +1219,11 @@ def run(run):
         "Coq (sol_check: shape_ok, wf_treeb, closedb, root label, satb of the original constraint) and by "
         "spec_sem.py; every prefix of the solution sequence is thereby checked. non-trivial = the instance "
         "returned at least one tree and its constraint is not satisfied by every tree the fuzzer produces "
-        "for the grammar (judged on 6 fuzzed trees by spec_sem)")
+        "for the grammar (judged on 6 fuzzed trees by spec_sem). TRACE CONFORMANCE stream: 30 (quick) / 150 "
+        "(thorough) of these instances (2/3 with solutions, none with activate_unsat_support) are run again with "
+        "debug=True (1 s user-CPU, up to 8 solutions); up to 60 edges per instance of solver.state_tree (first the "
+        "chains initial state -> ... -> returned tree, then recording order) are evaluated in Coq by "
+        "TraceConf.edge_kind; a trace edge is non-trivial when the tree changed (completion / insertion)")
     proof_ok = run.proof_stage()
 
     import z3  # noqa  (imported before forking so that children do not pay the import)
@@ -1121,6 +1406,12 @@ def run(run):
         run.violation({"kind": "the two oracles disagree (spec_sem.py says unsatisfied, Coq satb says satisfied)",
                        "instance": job_public(jobs[ji]), "tree": results[ji]["solutions"][si],
                        "obligation": "correspondence satb (Semantics.v) <-> spec_sem.py"}, found_input=False)
+    # ---- trace conformance (debug state tree edges against the tree part of the rule system) ----
+    try:
+        trace_stage(run, jobs, results, nproc, known_by_class)
+    except Exception as e:  # noqa
+        run.violation({"kind": "trace-conformance stage crashed", "error": type(e).__name__ + ": " + str(e)[:500],
+                       "obligation": "harness/c01.py trace_stage"}, found_input=False)
     n_checked = run.cov["trees_checked"]
     print(f"[C01] instances={len(jobs)} with_solutions={run.cov['instances_with_solutions']} trees={n_checked} "
           f"nontrivial_instances={run.cov['nontrivial_instances']} outcomes={hist_end} known_hits={len(known_hits)}",
@@ -1142,10 +1433,11 @@ def run(run):
                 "falsified `forall int` / a satisfied `exists int` verdict is definite)"}
     run.cov["trusted_base"] = lib.TRUSTED_BASE_COMMON + [
         "constraints with numeric quantifiers (4 fixed probes) are judged by spec_sem.py, not by satb in Coq",
-        "C01 theorems are about an ABSTRACT transition system (Solver/Rules.v) over-approximating "
-        "ISLaSolver.solve(); premises H_smt, H_sem, H_insert, H_numq, H_infeasible are hypotheses of "
-        "solve_sound_partial; the tie to /repo is the runtime verified check of outputs, not a step-by-step "
-        "trace conformance",
+        "C01 theorems are about an ABSTRACT transition system (Solver/Rules.v, RulesMore.v, RulesMore3.v) "
+        "over-approximating ISLaSolver.solve(); the tie to /repo is (1) the runtime verified check of outputs and "
+        "(2) the trace-conformance stream: the TREE part of every sampled edge of ISLaSolver(debug=True).state_tree "
+        "is checked in Coq against the rules (TraceConf.edge_kind, sound by C01_trace_edge_sound); the CONSTRAINT "
+        "part of a step (which conjuncts are added/dropped) is not replayed against the rules",
         "match-expression prefix trees (BindExpression.to_tree_prefix) are inputs of the specification",
         "SMT atoms restricted to the decided family satom (string (in)equality, str.len, str.to.int comparisons)",
         "budget per instance is user-CPU time; which trees are returned may vary with Z3's internal wall-clock "
@@ -1163,6 +1455,27 @@ def replay(path):
     job = {"idx": "replay", "gname": w["grammar"], "ast": detuple(w["ast"]), "how": w["how"],
            "settings": w["settings"], "seed": w["seed"], "budget": w.get("budget_cpu_s", 2.0) * 3,
            "max_solutions": w.get("max_solutions", 10)}
+    if "trace_edge" in w:
+        # trace-conformance witness: the recorded edge is re-evaluated in Coq, then the instance is run
+        # again with debug=True and every edge of its state tree is classified
+        import re
+        e = w["trace_edge"]
+        kd, hint = edge_kind_py(e["p"], e["c"])
+        txt = lib.coq_eval("c01te", TRACE_IMPORTS, f"edge_kind TG0 TT0_0 {g_path(hint)} TT0_1",
+                           extra_defs=trace_defs(0, job, [e["p"], e["c"]]))
+        m = re.search(r"=\s*(\d+)%N", txt)
+        ck = int(m.group(1)) if m else None
+        print("recorded edge:", str(tree_from_json(e["p"])), "->", str(tree_from_json(e["c"])),
+              "| edge_kind (Coq) =", ck, EDGE_KINDS.get(ck))
+        res = solve_instance(dict(job, trace=True, budget=w.get("budget_cpu_s", 1.0) * 3, max_edges=10 ** 6))
+        bad = 0
+        for e2 in (res.get("trace") or {}).get("edges", []):
+            k2, _ = edge_kind_py(e2["p"], e2["c"])
+            if k2 == 0:
+                bad += 1
+                print("non-conforming edge:", str(tree_from_json(e2["p"])), "->", str(tree_from_json(e2["c"])))
+        print("end:", res["end"], "non-conforming edges in the re-run (Python mirror of edge_kind):", bad)
+        return 1 if (ck == 0 or bad) else 0
     res = solve_instance(job)
     bad = 0
     for si, tj in enumerate(res["solutions"]):
